@@ -533,8 +533,8 @@ def _is_pydict_iteration(c):
     """`for (item : dict)` / dict.begin() on a py::dict: pybind11's dict iterator is PyDict_Next"""
     if c.kind == 'CXXMemberCallExpr' and c.callee_name() == 'begin':
         b = c.call_base()
-        t = ((b.type or '') if b is not None else '').replace('pybind11::', 'py::').replace('const ', '')
-        return t.strip(' &') == 'py::dict'
+        from ..effects import norm_type
+        return norm_type(b.type if b is not None else '') == 'py::dict'
     return False
 
 
